@@ -29,14 +29,23 @@ class Oracle:
         self.trace.append(('do', effect))
 
 
-def explore(run, max_leaves=200000, max_depth=40):
+def explore(run, max_leaves=200000, max_depth=40, max_nodes=400000, budget_s=120.0):
     """run(oracle) -> outcome (any value; exceptions must be turned into outcomes by run).
-    Returns (leaves, complete) with leaves = [(script, trace, outcome)]"""
+    Breadth-first over answer scripts (so that a function that can loop for ever still yields all its short
+    dialogues first).  Returns (leaves, complete) with leaves = [(script, trace, outcome)]"""
+    import collections
+    import time
     leaves = []
-    stack = [[]]
+    queue = collections.deque([[]])
     complete = True
-    while stack:
-        script = stack.pop()
+    nodes = 0
+    t0 = time.time()
+    while queue:
+        script = queue.popleft()
+        nodes += 1
+        if nodes > max_nodes or time.time() - t0 > budget_s:
+            complete = False
+            break
         o = Oracle(script)
         try:
             out = run(o)
@@ -44,8 +53,8 @@ def explore(run, max_leaves=200000, max_depth=40):
             if len(script) >= max_depth:
                 complete = False
                 continue
-            for a in reversed(list(nm.answers)):
-                stack.append(script + [a])
+            for a in nm.answers:
+                queue.append(script + [a])
             continue
         leaves.append((script, o.trace, out))
         if len(leaves) >= max_leaves:
